@@ -475,8 +475,20 @@ def tomlStr : TomlScalar → Option Str
   | .bool false => some "False".toList
   | .other => none
 
-/-- `result[key] = [str(i) for i in value]` / `str(value)`; `none` = not modelled -/
+/-- the text of a scalar value of a key (since /repo commit 67194dc a boolean is `str(value).lower()`: the word an
+INI file or the command line would carry; inside an array `str(i)` still gives `True`/`False`) -/
+def tomlScalarText : TomlScalar → Option Str
+  | .bool true => some "true".toList
+  | .bool false => some "false".toList
+  | v => tomlStr v
+
+/-- `result[key] = [str(i) for i in value]` / `str(value)` (booleans lower-cased); `none` = not modelled -/
 def tomlItem : TomlVal → Option FileVal
+  | .scalar v => (tomlScalarText v).map .str
+  | .list l => (l.mapM tomlStr).map .list
+
+/-- HISTORICAL (before 67194dc): `str(value)` for booleans too -/
+def tomlItemOld : TomlVal → Option FileVal
   | .scalar v => (tomlStr v).map .str
   | .list l => (l.mapM tomlStr).map .list
 
@@ -598,6 +610,7 @@ inductive MergeErr
   | assertion        -- `assert isinstance(value, str)` for a flag given a list: AssertionError escapes
   | intValueError    -- `int(value)` for a count action: ValueError escapes
   | noFlags          -- `option_strings[-1]` on an action without option strings: IndexError
+  | badValue         -- `ValidatorParser` (commit ae278e0): a list for a flag/count, a non-number for a count → exit 2
   deriving DecidableEq, Repr
 
 inductive MergeR (α : Type)
@@ -714,9 +727,33 @@ def mergeOne (table : List Opt) (args : List Arg) (items : List (Str × FileVal)
     let idx := insertionIndex args
     .ok (args.take idx ++ extra ++ args.drop idx)
 
-/-- one config file behind `ValidatorParser` -/
-def mergeFile (table : List Opt) (args : List Arg) (data : List (Str × FileVal)) : MergeR (List Arg) :=
+/-- `ValidatorParser` (since commit ae278e0) refuses a value its action cannot take: a list for a flag or count
+action, and for a count action a text that is neither one of the true/false words nor accepted by `int()` -/
+def badValue (o : Opt) (v : FileVal) : Bool :=
+  match o.kind with
+  | .flag | .count =>
+    (match v with
+     | .list _ => true
+     | .str s =>
+       o.kind = .count && !(trueWords.contains (lowerAscii s) || falseWords.contains (lowerAscii s)) &&
+         (pyInt s).isNone)
+  | _ => false
+
+def itemBad (table : List Opt) (kv : Str × FileVal) : Bool :=
+  match lookupKey table kv.1 with
+  | some o => badValue o kv.2
+  | none => false
+
+def valuesBad (table : List Opt) (data : List (Str × FileVal)) : Bool := data.any (itemBad table)
+
+/-- HISTORICAL (before ae278e0): no value check, bad values reached configargparse (`.assertion`, `.intValueError`) -/
+def mergeFileOld (table : List Opt) (args : List Arg) (data : List (Str × FileVal)) : MergeR (List Arg) :=
   mergeOne table args (validate table data).1
+
+/-- one config file behind `ValidatorParser`: refused (`ConfigFileParserException` → `parser.error`, exit 2) when a
+value cannot be taken, else the known items are merged -/
+def mergeFile (table : List Opt) (args : List Arg) (data : List (Str × FileVal)) : MergeR (List Arg) :=
+  if valuesBad table data then .error .badValue else mergeOne table args (validate table data).1
 
 /-- all config files: `for stream in reversed(config_streams)` -/
 def mergeFiles (table : List Opt) (cli : List Arg) (files : List (List (Str × FileVal))) : MergeR (List Arg) :=
@@ -846,8 +883,8 @@ def getTomlSection : List (Str × TNode) → List Str → SecR
 def tnodeItem : TNode → Option (Option FileVal)
   | .str s => some (some (.str s))
   | .int i => some (some (.str (toString i).toList))
-  | .bool true => some (some (.str "True".toList))
-  | .bool false => some (some (.str "False".toList))
+  | .bool true => some (some (.str "true".toList))       -- `str(value).lower()` since commit 67194dc
+  | .bool false => some (some (.str "false".toList))
   | .list l true => (l.mapM tomlStr).map fun x => some (.list x)
   | .list _ false => none
   | .table _ => none
